@@ -527,7 +527,10 @@ func (vfs *OrefaFS) MkdirAll(path string, perm fs.FileMode) error {
 		dirName, _ = avfs.SplitAbs(vfs, dirName)
 	}
 
-	for _, absPath = range ds {
+	// ds lists the missing directories from the deepest one to the one closest to parent :
+	// they are created in the reverse order, each one in the directory created before it.
+	for i := len(ds) - 1; i >= 0; i-- {
+		absPath = ds[i]
 		_, fileName := avfs.SplitAbs(vfs, absPath)
 
 		parent = vfs.createDir(parent, absPath, fileName, perm)
